@@ -941,6 +941,13 @@ impl<'a> Gen<'a> {
                     } else {
                         GExpr::Num(*self.r.pick(&[5, 1000, i64::MAX - 1, i64::MAX]))
                     }
+                } else if self.readable.contains(&v) && !self.in_scope().contains(&v) && self.r.chance(1, 2) {
+                    // first binding of a name that is also an output, defined from the device's value of
+                    // that very name: the right-hand side is a read of the output (the variable does not exist yet)
+                    if !self.reads.contains(&v) {
+                        self.reads.push(v.clone());
+                    }
+                    GExpr::Bin("add", Box::new(GExpr::Var(v.clone())), Box::new(GExpr::Num(self.r.below(3) as i64)))
                 } else {
                     self.expr(d, true)
                 };
@@ -1188,7 +1195,7 @@ pub fn gen_case(r: &mut Prng, p: &Profile) -> Case {
         .filter(|s| reads.contains(&s.name) || !r.chance(1, 5))
         .cloned()
         .collect();
-    if r.chance(1, 25) {
+    if r.chance(1, if p.p_read >= 40 { 8 } else { 25 }) {
         // drop a signal that is read: the constructor must fail
         if let Some(i) = layout.iter().position(|s| reads.contains(&s.name)) {
             layout.remove(i);
